@@ -525,7 +525,7 @@ def parse_options_header(value: str | None) -> tuple[str, dict[str, str]]:
     # For each collected part, process optional charset and continuation,
     # unquote quoted values.
     for pk, pv in parts:
-        if pk[-1] == "*":
+        if pk[-1] == "*" and len(pk) > 1:
             # key*=charset''value becomes key=value, where value is percent encoded
             pk = pk[:-1]
             match = _charset_value_re.match(pv)
